@@ -737,7 +737,14 @@ func (r *runner) metaAll() ev {
 	return out
 }
 
+func countersNow() [8]int64 {
+	d := &cmem.DBRL
+	return [8]int64{d.SetData.Count, d.SetData.Size, d.GetData.Count, d.GetData.Size, d.FlushData.Count, d.FlushData.Size,
+		d.AllocRL.Count, d.AllocRL.Size}
+}
+
 func (r *runner) run() {
+	c0 := countersNow()
 	r.vals = map[string]int{}
 	r.pendingRot = map[int]bool{}
 	r.rotHandled = map[int]bool{}
@@ -801,10 +808,26 @@ func (r *runner) run() {
 		vl.emit(ev{"a": "ReadAll", "l": 1, "reads": r.readAll(), "final": true})
 	}
 	r.waitParked()
+	if r.crash == nil && r.store != nil && r.sc.Family != "free" && r.sc.Family != "gc2" {
+		// quiescence: let the pending rotation flushers run, then a clean close
+		for c := range r.pendingRot {
+			r.releaseRot(c, true)
+			delete(r.pendingRot, c)
+		}
+		r.store.Close()
+		r.store, r.bkt = nil, nil
+	}
 	if r.crash != nil {
 		for _, re := range r.recoverSnaps(r.crash, r.gen) {
 			vl.emit(re)
 		}
+	}
+	// buffer accounting at quiescence (C12 seen from the store): after the final close every counter is back where it
+	// was when the scenario started (the harness accounts SetData before a set exactly as Request.Read does)
+	if r.crash == nil && r.store == nil && !r.sc.Conf.Micro {
+		c1 := countersNow()
+		vl.emit(ev{"a": "Counters", "l": 1, "d": []int64{c1[0] - c0[0], c1[1] - c0[1], c1[2] - c0[2], c1[3] - c0[3],
+			c1[4] - c0[4], c1[5] - c0[5], c1[6] - c0[6], c1[7] - c0[7]}})
 	}
 	vl.emit(ev{"a": "End", "l": 1, "sid": r.sc.ID})
 }
